@@ -41,7 +41,7 @@ CHECKS = {
             "pbt"),
     "C07": ("DESIGN.md section 4 / C07",
             "property-based round-trip and history-independence testing (metamorphic over call histories) against reference model M-summary",
-            "Generated-input search: an assignment of values is realised by two independent interleaved set_*/push_* histories; printed form must equal the model's canonical form for both, parse back to the same 23 values, and re-print byte-identically.",
+            "Generated-input search over call histories: an assignment of values is realised by two independent interleaved set_*/push_* histories with queries in between (is_completed after every call, Display after every fifth, a clone taken half-way and read after the original moved on); printed form must equal the model's canonical form for both, parse back to the same 23 values, and re-print byte-identically.",
             "Trusts M-summary.print/apply (self-checked); values without CR/LF and non-empty lists only.",
             "pbt"),
     "C08": ("DESIGN.md section 4 / C08",
@@ -51,7 +51,7 @@ CHECKS = {
             "pbt"),
     "C09": ("DESIGN.md section 4 / C09",
             "property-based metamorphic testing over chunk partitions (enumerated single cuts, pairs, fixed sizes, random) with fault injection of one malformed entry; thorough tier adds a coverage-guided libFuzzer campaign on the same oracle",
-            "Generated-input search over (stream, partition): every partition of each generated stream must give the same entries as the one-call write and the model; for a malformed entry the failing write, its error kind and the entries collected so far are checked for every partition.",
+            "Generated-input search over (stream, partition): every enumerated partition of each short stream (single cuts, all pairs of cuts up to 240 bytes, fixed chunk sizes, random partitions) and one generated partition of each long stream (20-70 entries, chunk sizes up to 8192) must give the same entries as the one-call write and the model; for a malformed entry the failing write, its error kind and the entries collected so far are checked for every partition.",
             "Trusts M-summary for the expected entries; doubled blank lines (empty entries) are outside the generated domain.",
             "pbt"),
     "C10": ("DESIGN.md section 4 / C10",
@@ -156,7 +156,7 @@ def main():
              "kind_free_text": "cargo-fuzz / libFuzzer targets (nightly) whose oracle is the same harness code (pkgsrc_verif::fuzz); run by the thorough tier only: 8 worker processes per target, fixed number of runs, fresh corpus seeded from the harness generators, artifacts confirmed through the stable replay path"},
         ],
         "checks": checks,
-        "notes": "All checks: exit 0 held / 1 violation (VIOLATION line) / 2 inconclusive. VERIF_SEED selects the PRNG seed (default 1). ./check rebuilds the harness against /repo's working tree on every call. Known findings: known_findings.json.",
+        "notes": "All checks: exit 0 held / 1 violation (VIOLATION line) / 2 inconclusive. VERIF_SEED selects the PRNG seed (default 1). ./check rebuilds the harness against /repo's working tree on every call. Known findings: known_findings.json (KF-1 for C01, KF-2 for C17). Replay files may carry a 'history' (cases that must run first on the same thread) for failures caused by state left behind by earlier calls. Sensitivity: 120 independently seeded changes under seeded/, re-run with tools/seed_rerun_all.py. DESIGN.md section 10 is the authoritative description of what was built.",
         "not_applicable": na,
     }
     out = os.path.join(HERE, "MANIFEST.json")
